@@ -6,7 +6,7 @@ git -C /repo worktree remove --force $wt 2>/dev/null
 git -C /repo worktree add -q --detach $wt HEAD || exit 1
 for m in $(ls -d ${PREFIX}_$pid/mutants/*/ | sed "s:/$::" | sort); do
   [ -f $m/patch.diff ] || continue
-  k=$(basename $m); out=/tmp/mutres/${pid}_$k.log
+  k=$(basename $m); out=${OUTDIR:-/tmp/mutres}/${pid}_$k.log
   [ -s $out ] && continue
   (cd $wt && git checkout -q -- . && git apply $m/patch.diff) || { echo "APPLY-FAILED" > $out; continue; }
   (cd /verif && VERIF_REPO=$wt timeout 2400 ./check $pid --tier quick > $out 2>&1; echo "EXIT $?" >> $out)
